@@ -340,6 +340,8 @@ def run_harness(exe, lines, timeout=600):
                 else:
                     ends.append(('P', float(t[i + 1]), float(t[i + 2]))); i += 3
             dump.setdefault('hends', {})[int(t[1])] = ends
+        elif t[0] == 'Y' and dump is not None:
+            dump.setdefault('ctype', {})[int(t[1])] = int(t[2])          # dual-mode runs: ConnRef::routingType() (1 poly-line, 2 orthogonal)
     return runs, rc, err
 
 
@@ -476,6 +478,8 @@ def hist_op_str(o):
         return 'C %d %d %d %d %d' % (o[1], o[2][0], o[2][1], o[3][0], o[3][1])
     if o[0] == 'E':
         return 'E %d %d %d %d' % (o[1], o[2], o[3][0], o[3][1])
+    if o[0] == 'Y':
+        return 'Y %d %d' % (o[1], o[2])          # setRoutingType (dual-mode routers): 1 poly-line, 2 orthogonal
     return 'P'
 
 
@@ -1844,6 +1848,8 @@ def parse_hist_ops(strs):
             ops.append(('C', int(t[1]), (int(t[2]), int(t[3])), (int(t[4]), int(t[5]))))
         elif t[0] == 'E':
             ops.append(('E', int(t[1]), int(t[2]), (int(t[3]), int(t[4]))))
+        elif t[0] == 'Y':
+            ops.append(('Y', int(t[1]), int(t[2])))
         elif t[0] == 'P':
             ops.append(('P',))
     return ops
@@ -1928,3 +1934,242 @@ def classify_border_chords(drv, polys, ids, route, offs, ops, trans):
         if a[0] == '1' and not sweep_computed_edge_last(ops, trans, route[seg], route[seg + 1], ids[shp]):
             return None
     return 'sweep_border_chord'
+
+
+# ------------------------------------------------------------------------------------------ shapeBufferDistance > 0 in histories (DESIGN 9.20, seeded change C06-8)
+# With shapeBufferDistance b > 0 the obstacle the router works with is Obstacle::routingPolygon() = the shape grown by b.  For an axis-parallel rectangle in
+# libavoid orientation that is exactly the rectangle grown by b on every side (PolygonInterface::offsetPolygon: unit normals, R = 1, mitred corner), so the
+# oracles of a buffered history (scene validity, route_ok, reference optimum) are those of the history of the GROWN rectangles; only rectangles are used.
+def is_rect(P):
+    return len(P) == 4 and sorted(tuple(p) for p in P) == sorted(rect_poly(bbox(P)))
+
+
+def inflate_rect(P, b):
+    """the routing polygon of rectangle P under shapeBufferDistance b (same vertex order)"""
+    if b == 0:
+        return list(P)
+    x0, y0, x1, y1 = bbox(P)
+    return [(p[0] + (b if p[0] == x1 else -b), p[1] + (b if p[1] == y1 else -b)) for p in P]
+
+
+def inflate_shapes(shapes, b):
+    return shapes if b == 0 else {i: inflate_rect(P, b) for i, P in shapes.items()}
+
+
+def buffered_ops(ops, S, b):
+    """scale every coordinate of a rectangles-only history by S and shrink every rectangle by b on each side (needs S > b): the routing polygons of the
+    result under shapeBufferDistance b are the S-scaled rectangles of `ops`, so every generator's validity invariant carries over to the buffered world"""
+    out = []
+    for o in ops:
+        if o[0] in ('A', 'T'):
+            x0, y0, x1, y1 = bbox(o[2])
+            if not is_rect(o[2]):
+                return None
+            out.append((o[0], o[1], rect_poly((x0 * S + b, y0 * S + b, x1 * S - b, y1 * S - b))))
+        elif o[0] == 'M':
+            out.append(('M', o[1], o[2] * S, o[3] * S))
+        elif o[0] == 'C':
+            out.append(('C', o[1], (o[2][0] * S, o[2][1] * S), (o[3][0] * S, o[3][1] * S)))
+        elif o[0] == 'E':
+            out.append(('E', o[1], o[2], (o[3][0] * S, o[3][1] * S)))
+        else:
+            out.append(o)
+    return out
+
+
+def gen_bufzone_history(rng, b, rect_only=True):
+    """-> (ops, tags).  Family "bufzone" (shapeBufferDistance b > 0): a connector routed first; then a rectangle is added / moved (relative, absolute) /
+    grown so that its BUFFER ZONE - not its body - lies across the connector's current straight route (body at distance 1 .. b-1 from the segment, both ends
+    outside the grown rectangle); variants: bystander shapes, then moved away again, then moved so that the body blocks.  Every visibility edge the connector uses
+    must be re-checked against the routing polygon (Router::processActions -> newBlockingShape(routingPolygon()))."""
+    tags = []
+    L = 40 * b
+    for _ in range(60):
+        s = (rng.range(0, L // 4), rng.range(0, L))
+        d = (rng.range(3 * L // 4, L), rng.range(0, L))
+        if rng.chance(1, 3):
+            d = (d[0], s[1])                                         # axis-parallel route
+        if rng.chance(1, 4):
+            s, d = (s[1], s[0]), (d[1], d[0])
+        if rng.chance(1, 2):
+            s, d = d, s
+        t = rng.range(25, 75)
+        m = (s[0] + (d[0] - s[0]) * t // 100, s[1] + (d[1] - s[1]) * t // 100)
+        w, h = rng.range(2, 6 * b), rng.range(2, 6 * b)
+        x0 = m[0] - rng.range(-b, w + b); y0 = m[1] - rng.range(-b, h + b)
+        near = rect_poly((x0, y0, x0 + w, y0 + h))
+        if through_interior(inflate_rect(near, 1), s, d) or not through_interior(inflate_rect(near, b), s, d):
+            continue
+        gb = inflate_rect(near, b)
+        if inside_closed(gb, s) or inside_closed(gb, d):
+            continue
+        break
+    else:
+        return None, []
+    ops = []
+    nid = 2
+    shapes = {}
+    # bystanders: rectangles far from the near rectangle and from the line's ends (validity is re-checked by the caller's simulate())
+    for _ in range(rng.below(3)):
+        for _ in range(20):
+            bx, by = rng.range(-L // 4, L + L // 4), rng.range(-L // 4, L + L // 4)
+            Bp = rect_poly((bx, by, bx + rng.range(2, 5 * b), by + rng.range(2, 5 * b)))
+            gB = inflate_rect(Bp, b)
+            if box_sep(bbox(gB), bbox(gb), 1) and all(box_sep(bbox(gB), bbox(inflate_rect(Q, b)), 1) for Q in shapes.values()) and \
+                    not in_any_bbox([gB], s) and not in_any_bbox([gB], d):
+                shapes[nid] = Bp; ops.append(('A', nid, Bp)); nid += 1
+                break
+    how = rng.choice(['add', 'move', 'moveabs', 'grow', 'endpoint'])
+    tags.append(how)
+    far_dx, far_dy = (rng.choice([-1, 1]) * rng.range(2 * L, 3 * L), rng.range(-b, b)) if rng.chance(1, 2) else (rng.range(-b, b), rng.choice([-1, 1]) * rng.range(2 * L, 3 * L))
+    far = [(x + far_dx, y + far_dy) for x, y in near]
+    if how == 'add':
+        ops += [('C', 100, s, d), ('P',), ('A', 1, near), ('P',)]
+    elif how == 'move':
+        ops += [('A', 1, far), ('C', 100, s, d), ('P',), ('M', 1, -far_dx, -far_dy), ('P',)]
+    elif how == 'moveabs':
+        ops += [('A', 1, far), ('C', 100, s, d), ('P',), ('T', 1, near), ('P',)]
+    elif how == 'grow':
+        # a small rectangle inside `near` on the side away from the line whose own buffer zone does not reach the line
+        x0, y0, x1, y1 = bbox(near)
+        small = None
+        for _ in range(20):
+            sx0 = rng.range(x0, x1 - 1); sy0 = rng.range(y0, y1 - 1)
+            c = rect_poly((sx0, sy0, rng.range(sx0 + 1, x1), rng.range(sy0 + 1, y1)))
+            if not through_interior(inflate_rect(c, b + 1), s, d):
+                small = c
+                break
+        if small is None:
+            tags[-1] = 'add'
+            ops += [('C', 100, s, d), ('P',), ('A', 1, near), ('P',)]
+        else:
+            ops += [('A', 1, small), ('C', 100, s, d), ('P',), ('T', 1, near), ('P',)]
+    else:
+        # the shape is there first; the connector is brought onto the line by endpoint moves in a later transaction
+        s0 = (s[0] + far_dx, s[1] + far_dy); d0 = (d[0] + far_dx, d[1] + far_dy)
+        ops += [('A', 1, near), ('C', 100, s0, d0), ('P',), ('E', 100, 0, s), ('E', 100, 1, d), ('P',)]
+    if rng.chance(1, 2):
+        tags.append('+away')
+        ops += [('M', 1, far_dx, far_dy), ('P',)]
+        if rng.chance(1, 2):
+            tags.append('+back')
+            ops += [('M', 1, -far_dx, -far_dy), ('P',)]
+    elif rng.chance(1, 2):
+        # slide along the line: the buffer zone still lies across it
+        tags.append('+slide')
+        ux, uy = d[0] - s[0], d[1] - s[1]
+        k = rng.range(-10, 10)
+        ops += [('M', 1, ux * k // 100, uy * k // 100), ('P',)]
+    return ops, tags
+
+
+def buffered_history_valid(ops, b):
+    """every intermediate scene of a rectangles-only history is valid in the sense of plain_scene_valid for the GROWN rectangles (C03's twin of checks/c06.py simulate(buf=b))"""
+    shapes, conns = {}, {}
+    for o in ops:
+        if o[0] == 'P':
+            continue
+        if o[0] in ('A', 'T') and not is_rect(o[2]):
+            return False
+        if (o[0] == 'A' and o[1] in shapes) or (o[0] in ('M', 'T', 'D') and o[1] not in shapes) or (o[0] == 'E' and o[1] not in conns):
+            return False
+        shapes, conns = hist_apply(shapes, conns, o)
+        if not plain_scene_valid(inflate_shapes(shapes, b), conns):
+            return False
+    return True
+
+
+# ------------------------------------------------------------------------------------------ dual-mode routers and routing-type switches (DESIGN 9.20, seeded change C03-8)
+# Router(PolyLineRouting | OrthogonalRouting) = harness mode 2; op ('Y', cid, type) = ConnRef::setRoutingType (1 poly-line, 2 orthogonal).  New connectors of a
+# dual-mode router are poly-line (Router::validConnType).  Rectangles only, endpoints outside every bounding box: both routing types then see the same obstacles.
+def conn_types_after(ops):
+    """{cid: 1|2} after the op list (dual-mode router)"""
+    ty = {}
+    for o in ops:
+        if o[0] == 'C':
+            ty[o[1]] = 1
+        elif o[0] == 'Y':
+            ty[o[1]] = o[2]
+    return ty
+
+
+def gen_typeswitch_history(rng, rect_only=True, R=40):
+    """-> (ops, tags).  Family "typeswitch": 2-5 rectangles, 1-3 connectors across them, each given an initial routing type before the first transaction (left
+    poly-line, or switched to orthogonal right after creation); then 2-5 transactions each of which switches the type of 1+ connectors (both directions), alone or
+    together with an endpoint move (before / after the switch), a shape move, a shape add or delete, a there-and-back double switch; every connector's endpoints are
+    thus (re)set under one type and routed under the other."""
+    H = _Hist(rng, True, R)
+    tags = []
+    H.add_shapes(rng.range(2, 5))
+    H.add_conns(rng.range(1, 3))
+    if not H.conns or not H.shapes:
+        return None, []
+    ty = {c: 1 for c in H.conns}
+
+    def switch(c):
+        ty[c] = 3 - ty[c]
+        H.ops.append(('Y', c, ty[c]))
+
+    def move_end(c):
+        for _ in range(30):
+            p = free_point(rng, list(H.shapes.values()), R, use_bbox=True)
+            if H.try_op(('E', c, rng.below(2), p)):
+                return True
+        return False
+
+    for c in sorted(H.conns):
+        if rng.chance(2, 3):
+            switch(c)
+    tags.append('init:' + ''.join('po'[ty[c] - 1] for c in sorted(ty)))
+    H.P()
+    for _ in range(rng.range(2, 5)):
+        c = rng.choice(sorted(H.conns))
+        how = rng.choice(['alone', 'alone', 'end_then_switch', 'switch_then_end', 'with_move', 'with_add', 'with_delete', 'double', 'all', 'end_only'])
+        tags.append(how + ':' + ('to_poly' if ty[c] == 2 else 'to_orth'))
+        if how == 'alone':
+            switch(c)
+        elif how == 'end_then_switch':
+            move_end(c); switch(c)
+        elif how == 'switch_then_end':
+            switch(c); move_end(c)
+        elif how == 'with_move':
+            i = rng.choice(sorted(H.shapes))
+            for _ in range(20):
+                if H.try_op(('M', i, rng.range(-12, 12), rng.range(-12, 12))):
+                    break
+            switch(c)
+        elif how == 'with_add':
+            switch(c); H.add_shapes(1)
+        elif how == 'with_delete':
+            if len(H.shapes) > 1:
+                H.try_op(('D', rng.choice(sorted(H.shapes))))
+            switch(c)
+        elif how == 'double':
+            switch(c); switch(c)
+            if rng.chance(1, 2):
+                move_end(c)
+        elif how == 'all':
+            for cc in sorted(H.conns):
+                switch(cc)
+        else:
+            move_end(c)                     # endpoints re-set under the current type; a later transaction switches
+        H.P()
+    return H.ops, tags
+
+
+def inject_type_switches(rng, ops, p=(1, 3)):
+    """insert setRoutingType ops for existing connectors at random places of a history (after each op with probability p)"""
+    out, ty = [], {}
+    for o in ops:
+        out.append(o)
+        if o[0] == 'C':
+            ty[o[1]] = 1
+        if ty and rng.chance(*p):
+            c = rng.choice(sorted(ty))
+            ty[c] = 3 - ty[c]
+            out.append(('Y', c, ty[c]))
+            if o[0] == 'P' and rng.chance(1, 2):
+                out.append(('P',))          # a transaction that only switches a type
+    if out[-1] != ('P',):
+        out.append(('P',))
+    return out
